@@ -22,6 +22,7 @@ import (
 	"strings"
 	"sync"
 
+	"github.com/vedadiyan/genql/compare"
 	"github.com/vedadiyan/sqlparser/v2"
 )
 
@@ -86,7 +87,7 @@ func ToCatalog(rows []any, ident string, identRight string, joinExpr sqlparser.E
 				return nil, err
 			}
 			// length-prefixed, so that ("a-", "b") and ("a", "-b") are different keys
-			text := fmt.Sprintf("%v", reader)
+			text := compare.Text(reader)
 			buffer.WriteString(fmt.Sprintf("%d:%s-", len(text), text))
 			if reader != nil {
 				if hashedTable.keyTypes[i] == nil {
